@@ -287,6 +287,35 @@ def systematic(rng, start_index):
             text += g.out
             msgs.append((name, kind, 0x0C00 + idx))
             idx += 1
+    # self.size shapes: the members in front of a `self.size` field are subtracted from size() by the writer (`self.size() - N`): every
+    # constant-size member kind in front — nothing, integers, an enum of every width as declared and UPCAST to a wider integer, a Bool, a Guid,
+    # a fixed array — over both usual widths of the size field, with a variable-size tail behind
+    for szty in ("u16", "u32"):
+        for front in ("none", "u8", "u32", "enum", "upcast-u16", "upcast-u32", "upcast-u64", "Bool", "Guid", "u16[2]", "enum+upcast-u32"):
+            g = Gen(rng, idx)
+            g.names = names
+            body = ""
+            for part in front.split("+"):
+                if part == "none":
+                    continue
+                if part == "enum" or part.startswith("upcast"):
+                    en, ty, ens = g.enum()
+                    if part.startswith("upcast"):
+                        up = part.split("-")[1]
+                        if int(up[1:]) <= int(ty[1:]):
+                            up = {"u8": "u16", "u16": "u32", "u32": "u64"}[ty]
+                        body += f"    ({up}){en} {g.name()};\n"
+                    else:
+                        body += f"    {en} {g.name()};\n"
+                else:
+                    body += f"    {part} {g.name()};\n"
+            body += f"    {szty} {g.name()} = self.size;\n    CString {g.name()};\n    u32 {g.name()};\n"
+            kind = "smsg" if idx % 2 else "cmsg"
+            name = f"{kind.upper()}_VERIF_{g.name('').upper()}"
+            g.out.append(f"{kind} {name} = 0x{0x0C00 + idx:04X} {{\n{body}}} {{\n    versions = \"1.12\";\n}}\n")
+            text += g.out
+            msgs.append((name, kind, 0x0C00 + idx))
+            idx += 1
     return "\n".join(text), msgs
 
 
